@@ -3864,18 +3864,17 @@ impl M2Model {
 
             // For each texture, update the offset in the definition and write the filename
             for (i, texture) in self.textures.iter().enumerate() {
-                // Get the filename
-                let filename_offset = texture.filename.array.offset as usize;
+                // Get the filename length (includes the null terminator)
                 let filename_len = texture.filename.array.count as usize;
                 // Not every texture has a filename (some are hardcoded)
-                if filename_offset == 0 || filename_len == 0 {
+                if filename_len == 0 {
                     continue;
                 }
 
                 // Calculate the offset in the data section where this texture's definition was written
-                // The texture definitions start at (header.textures.offset - base_data_offset)
-                let base_data_offset = std::mem::size_of::<M2Header>();
-                let def_offset_in_data = (header.textures.offset as usize - base_data_offset)
+                // The data section starts right after the on-disk header, so the texture
+                // definitions start at (header.textures.offset - header_size)
+                let def_offset_in_data = (header.textures.offset as usize - header_size)
                     + (i * texture_def_size)
                     + 8;
 
@@ -3885,9 +3884,12 @@ impl M2Model {
                 data_section[def_offset_in_data + 4..def_offset_in_data + 8]
                     .copy_from_slice(&current_offset.to_le_bytes());
 
-                // Write the filename
-                data_section.extend_from_slice(&texture.filename.string.data);
-                data_section.push(0); // Null terminator
+                // Write the filename, zero-padded to exactly `filename_len` bytes so that
+                // the bytes written match the offset advance below
+                texture
+                    .filename
+                    .string
+                    .write(&mut data_section, filename_len)?;
 
                 current_offset += filename_len as u32;
             }
